@@ -1,4 +1,6 @@
 """C17 — qtools accumulator / adder / merge types hold the sums they are sized for (DESIGN §4 C17)."""
+import json
+
 import numpy as np
 
 from .. import core, qtypes
@@ -21,6 +23,198 @@ def shapes(rng, tier):
         out.append([kh, kh, n // (kh * kh), int(rng.integers(1, 9))])
         break
   return out
+
+
+REC_FIELDS = ("mode", "name", "bits", "int_bits", "is_signed", "is_po2", "max_val_po2", "use_01")
+
+
+def twin_groups(recs, field):
+  """groups (lists of indices into `recs`) of operand types whose qtools records agree on EVERY field except `field`,
+  one member per distinct value of `field` — the types a memo / dispatch key that forgets `field` cannot tell apart"""
+  groups = {}
+  for i, (_, _, r) in enumerate(recs):
+    sig = tuple(json.dumps(r[k]) for k in REC_FIELDS if k != field)
+    groups.setdefault(sig, {}).setdefault(json.dumps(r[field]), i)
+  return [list(g.values()) for g in groups.values() if len(g) >= 2]
+
+
+def width_rank(r, field):
+  """the widening order inside a twin group: the value of the one field that differs; for `max_val_po2` the cap itself
+  (no cap = widest).  Two caps that both lie above the natural exponent range give the same VALUE set but qtools
+  multiplies the caps as given, so the order has to be that of the caps, not of the value sets"""
+  v = r[field]
+  if field == "max_val_po2":
+    return (1, 0) if v is None else (0, core.unrj(v))
+  return (0, v) if not isinstance(v, bool) else (0, int(v))
+
+
+def frac_of(r):
+  return r["bits"] - int(r["is_signed"]) - r["int_bits"]
+
+
+def adder_key(ra, rb, b):
+  return {"site": "adder", "a_mode": ra["mode"], "b_mode": rb["mode"], "why": b["why"], "tag": b["tag"],
+          "has_unit": ra["mode"] in (2, 3) or rb["mode"] in (2, 3)}
+
+
+def acc_key(rm, n, b):
+  return {"site": "accumulator", "m_mode": rm["mode"], "m_is_po2": bool(rm["is_po2"]), "why": b["why"],
+          "tag": b["tag"], "n_is_pow2": (n & (n - 1)) == 0}
+
+
+def merge_key(kind, rs, b):
+  return {"site": "merge", "kind": "Add" if kind == "Add" else "Max-like", "same_format": all(r == rs[0] for r in rs),
+          "n_inputs_gt2": len(rs) > 2, "why": b["why"], "tag": b["tag"],
+          "has_unit": any(r["mode"] in (2, 3) for r in rs), "has_po2": any(r["mode"] == 1 for r in rs),
+          "int_bits_below_minus1": any(r["mode"] == 0 and r["int_bits"] < -1 for r in rs),
+          "inputs_differ_in": ",".join(f for f in REC_FIELDS if any(r[f] != rs[0][f] for r in rs))}
+
+
+def history_stream(run, tier, recs, mods):
+  """HISTORIES over operand types in ONE process.  The three factories are pure functions of the operand records (Lean:
+  `makeAdder`, `makeAccumulator`, `mergeAdd/mergeMax` take nothing else; Props.C17 `C17_history_*`), so the k-th
+  derivation must give what a fresh process gives.  A history walks a TWIN GROUP — operand types whose records differ in
+  exactly one field (max_val_po2 / bits / int_bits / is_signed / name) — against one fixed partner, in ascending,
+  descending and shuffled width order, alternating operand position and fresh / long-lived factory objects; po2 groups
+  also as po2 + po2 over all ordered pairs of members.  Each step is compared with the model, the brute-force clause
+  oracle judges every sum of operand values against the REAL result type of that step, and along an ascending history
+  the result type must never get narrower.  This stream runs FIRST: process-level state is still empty."""
+  adder_factory, accumulator_factory, merge_factory, mf = mods
+  rng = np.random.default_rng([run.seed, 1707])
+  long_lived = {"adder": adder_factory.IAdder(), "acc": accumulator_factory.AccumulatorFactory(),
+                "merge": merge_factory.MergeFactory()}
+  by_label = {l: i for i, (l, _, _) in enumerate(recs)}
+  partners = [by_label[l] for l in (
+      "quantized_bits(4,1,keep_negative=1)", "quantized_bits(5,0,keep_negative=0)", "quantized_relu(3,1,negative_slope=0.0)",
+      "quantized_bits(3,2,keep_negative=1)", "quantized_po2(3,None)", "quantized_relu_po2(2,None)", "quantized_po2(4,2)",
+      "ternary()", "binary(use_01=1)", "quantized_bits(6,0,keep_negative=0)", "quantized_bits(8,3,keep_negative=1)")
+              if l in by_label]
+  n_per_field = {"max_val_po2": 14, "bits": 5, "int_bits": 5, "is_signed": 5, "name": 4}
+  if tier != "quick":
+    n_per_field = {k: 3 * v for k, v in n_per_field.items()}
+  histories = []        # (factory, field, order, [(operand index list, extra)], ascending?)
+  for field, n_groups in n_per_field.items():
+    groups = twin_groups(recs, field)
+    if field == "max_val_po2":
+      # every po2 width that can be enumerated by the brute-force oracle first, then the wider ones
+      groups.sort(key=lambda g: (not small(recs[g[0]][2]), recs[g[0]][2]["bits"], recs[g[0]][2]["name"]))
+    else:
+      groups = [g for g in groups if small(recs[g[0]][2])] or groups
+      groups = [groups[i] for i in rng.permutation(len(groups))]
+    for gi, g in enumerate(groups[:n_groups]):
+      g = sorted(g, key=lambda i: (width_rank(recs[i][2], field), recs[i][0]))
+      if len(g) > 5:      # narrowest, widest and three seeded members in between
+        mid = sorted(int(v) for v in rng.choice(np.arange(1, len(g) - 1), size=3, replace=False))
+        g = [g[0]] + [g[i] for i in mid] + [g[-1]]
+      ps = [partners[int(v)] for v in rng.choice(len(partners), size=3, replace=False)]
+      orders = [("ascending", list(g)), ("descending", list(g)[::-1]), ("shuffled", [g[i] for i in rng.permutation(len(g))])]
+      for oi, ((oname, members), p) in enumerate(zip(orders, ps)):
+        pos = (gi + oi) % 2
+        for fac in ("adder", "acc", "merge"):
+          steps = [([m, p] if pos == 0 else [p, m]) for m in members]
+          histories.append((fac, field, oname, steps, pos))
+      if field == "max_val_po2" and gi < 8:
+        mem = [g[0], g[len(g) // 2], g[-1]]
+        pairs = [[a, b] for a in mem for b in mem]
+        pairs = [pairs[i] for i in rng.permutation(len(pairs))]
+        for fac in ("adder", "acc", "merge"):
+          histories.append((fac, field, "twin-pairs", pairs, None))
+  kinds = ["Add", "Maximum", "Concatenate", "Average", "Minimum"]
+  lines, meta = [], []
+  for hi, (fac, field, oname, steps, pos) in enumerate(histories):
+    shape = [[3, 2], [4, 2], [2, 2, 1, 3], [1, 1]][hi % 4]
+    ub = bool((hi // 4) % 2)
+    kind = kinds[hi % len(kinds)]
+    done = []
+    for si, ids in enumerate(steps):
+      qa, qb_ = recs[ids[0]][1], recs[ids[1]][1]
+      ra, rb = recs[ids[0]][2], recs[ids[1]][2]
+      fresh = (hi + si) % 2 == 0                       # a fresh factory object / the long-lived one, alternately
+      info = {"factory": fac, "field": field, "order": oname, "step": si, "operands": [recs[i][0] for i in ids],
+              "factory_object": "fresh" if fresh else "long-lived", "history": list(done)}
+      try:
+        if fac == "adder":
+          f = adder_factory.IAdder() if fresh else long_lived["adder"]
+          out = f.make_quantizer(qa, qb_).output
+          line = {"op": "adder", "a": ra, "b": rb}
+          ins = [ra, rb]
+        elif fac == "acc":
+          # the twin member is the WEIGHT type at pos 0, the input type at pos 1; the accumulator sees the product type
+          m = mf.make_multiplier(qa, qb_)
+          f = accumulator_factory.AccumulatorFactory() if fresh else long_lived["acc"]
+          out = f.make_accumulator(tuple(shape), m, ub).output
+          rm = qtypes.to_rec(m.output)
+          line = {"op": "acc", "m": rm, "shape": shape, "use_bias": ub}
+          ins = [rm]
+          info.update(shape=shape, use_bias=ub, mult_out=rm)
+        else:
+          f = merge_factory.MergeFactory() if fresh else long_lived["merge"]
+          out = f.make_quantizer([(qa, None), (qb_, None)], kind).output
+          line = {"op": "merge", "kind": kind, "qs": [ra, rb]}
+          ins = [ra, rb]
+          info["kind"] = kind
+      except Exception as e:  # pylint: disable=broad-except
+        run.count("history_impl_error_" + type(e).__name__)
+        done.append("+".join(info["operands"]) + " -> " + type(e).__name__)
+        continue
+      ro = qtypes.to_rec(out)
+      done.append("+".join(info["operands"]) + " -> (%d,%d,%d)" % (ro["bits"], ro["int_bits"], int(ro["is_signed"])))
+      lines.append(line)
+      meta.append((hi, si, fac, info, ins, ro, ids, pos))
+  outs = core.run_driver("C17", lines)
+  brute, bmeta = [], []
+  prev = {}
+  for (hi, si, fac, info, ins, ro, ids, pos), line, o in zip(meta, lines, outs):
+    run.case(("history", fac, info["field"], info["order"], tuple(info["operands"]), si, hi),
+             sample=dict(info, out=ro) if (si == 1 and len(run.samples) < 8) else None)
+    run.compared += 1
+    run.count("history_%s_%s" % (fac, info["field"]))
+    run.count("history_order_" + info["order"])
+    if "err" in o:
+      run.disagree("history_" + fac, info, ro, o)
+      continue
+    if ro["is_floating_point"]:
+      d = {k: 1 for k in ("bits", "is_floating_point") if ro[k] != o["out"][k]}
+    else:
+      d = qtypes.rec_eq(ro, o["out"], ignore=("use_01", "name", "mode") if fac == "acc" else ("use_01", "name"))
+    if d:
+      run.disagree("history_" + fac, info, ro, o["out"])
+    if ro["is_floating_point"]:
+      continue
+    # widening clause along an ascending history: the twin member grows, the partner is fixed
+    if info["order"] == "ascending" and info["field"] in ("max_val_po2", "bits"):
+      p_ = prev.get(hi)
+      if p_ is not None and (ro["int_bits"] < p_[0]["int_bits"] or frac_of(ro) < frac_of(p_[0])):
+        run.violate("widening_never_narrows", {"site": fac, "field": info["field"], "stream": "history"},
+                    dict(info, out=ro, previous_out=p_[0], previous_operands=p_[1]), mirrored=not d)
+      prev[hi] = (ro, info["operands"])
+    if all(small(r) for r in ins):
+      if fac == "acc":
+        n = int(np.prod(info["shape"][:-1])) + (1 if info["use_bias"] else 0)
+        brute.append({"op": "brute_acc", "m": ins[0], "out": ro, "n": n})
+      else:
+        brute.append({"op": "brute_add", "qs": ins, "out": ro,
+                      "kind": "sum" if (fac == "adder" or info["kind"] == "Add") else "each"})
+      bmeta.append((fac, info, ins, ro, not d))
+  outs = core.run_driver("C17", brute)
+  nsums = 0
+  for (fac, info, ins, ro, mirrored), line, o in zip(bmeta, brute, outs):
+    nsums += o["sums"]
+    if o["bad"] is None:
+      continue
+    b = o["bad"]
+    detail = dict(info, out=ro, sum=str(core.unrj(b["sum"])), tag=b["tag"])
+    if fac == "adder":
+      run.violate("adder_sum", dict(adder_key(ins[0], ins[1], b), stream="history"), detail, mirrored=mirrored)
+    elif fac == "acc":
+      run.violate("acc_sum", dict(acc_key(ins[0], line["n"], b), stream="history"), dict(detail, n_terms=line["n"]),
+                  mirrored=mirrored)
+    else:
+      run.violate("merge_sum" if info["kind"] == "Add" else "merge_holds_inputs",
+                  dict(merge_key(info["kind"], ins, b), stream="history"), detail, mirrored=mirrored)
+  run.extra["history_steps"] = len(meta)
+  run.extra["history_brute_cases"] = len(brute)
+  return nsums
 
 
 def run(run: core.Run, tier: str):
@@ -52,6 +246,9 @@ def run(run: core.Run, tier: str):
     for b in range(6):
       cells[(a, b)] = adder.adder_impl_table[a][b].__name__
   run.extra["static_tables_compared"] = {"adder_impl_table_cells": 36}
+
+  # ---- histories (first: no adder / accumulator / merge type has been derived in this process yet)
+  nsums_hist = history_stream(run, tier, recs, (adder_factory, accumulator_factory, merge_factory, mf))
 
   def pick(mode, k):
     ids = idx_by_mode.get(mode, [])
@@ -104,8 +301,7 @@ def run(run: core.Run, tier: str):
     nsums += o["sums"]
     if o["bad"] is not None:
       b = o["bad"]
-      key = {"site": "accumulator", "m_mode": rm["mode"], "m_is_po2": bool(rm["is_po2"]), "why": b["why"],
-             "tag": b["tag"], "n_is_pow2": (n & (n - 1)) == 0}
+      key = acc_key(rm, n, b)
       run.violate("acc_sum", key, {"w": lw, "x": lx, "mult_out": rm, "shape": s, "use_bias": ub,
                                    "acc": ro, "n_terms": n, "sum": str(core.unrj(b["sum"])), "tag": b["tag"]},
                   mirrored=mirrored)
@@ -146,8 +342,7 @@ def run(run: core.Run, tier: str):
     nsums += o["sums"]
     if o["bad"] is not None:
       b = o["bad"]
-      key = {"site": "adder", "a_mode": ra["mode"], "b_mode": rb["mode"], "why": b["why"], "tag": b["tag"],
-             "has_unit": ra["mode"] in (2, 3) or rb["mode"] in (2, 3)}
+      key = adder_key(ra, rb, b)
       run.violate("adder_sum", key, {"a": la, "b": lb, "out": ro, "sum": str(core.unrj(b["sum"])),
                                      "tag": b["tag"]}, mirrored=mirrored)
   run.extra["brute_add_cases"] = len(brute)
@@ -198,13 +393,10 @@ def run(run: core.Run, tier: str):
     nsums += o["sums"]
     if o["bad"] is not None:
       b = o["bad"]
-      key = {"site": "merge", "kind": "Add" if kind == "Add" else "Max-like", "same_format": same,
-             "n_inputs_gt2": len(rs) > 2, "why": b["why"], "tag": b["tag"],
-             "has_unit": any(r["mode"] in (2, 3) for r in rs), "has_po2": any(r["mode"] == 1 for r in rs),
-             "int_bits_below_minus1": any(r["mode"] == 0 and r["int_bits"] < -1 for r in rs)}
+      key = merge_key(kind, rs, b)
       run.violate("merge_sum" if kind == "Add" else "merge_holds_inputs", key,
                   {"kind": kind, "inputs": labels, "out": ro, "value": str(core.unrj(b["sum"])), "tag": b["tag"]},
                   mirrored=mirrored)
   run.extra["brute_merge_cases"] = len(brute)
-  run.extra["brute_force_sums_judged"] = nsums
+  run.extra["brute_force_sums_judged"] = nsums + nsums_hist
   run.assumptions.append("np.ceil(np.log2(N)) is tied to the exact clog2 for N <= 2^20+1 only; the theorem is for all N")
